@@ -78,7 +78,14 @@ def prepare(lib, workdir):
                (K.CKA_PRIVATE, T), (K.CKA_ID, b"o2"), (K.CKA_LABEL, b"private secret"), (K.CKA_VALUE, b"s" * 40),
                (K.CKA_SENSITIVE, F), (K.CKA_EXTRACTABLE, T), (K.CKA_SIGN, T)],
               [(K.CKA_CLASS, K.CKO_DATA), (K.CKA_TOKEN, T), (K.CKA_PRIVATE, T), (K.CKA_LABEL, b"private data"),
-               (K.CKA_APPLICATION, b"o3"), (K.CKA_VALUE, b"d" * 100)]):
+               (K.CKA_APPLICATION, b"o3"), (K.CKA_VALUE, b"d" * 100)],
+              # further key types (the typed object wrappers of P11Objects.cpp differ per CKA_KEY_TYPE)
+              [(K.CKA_CLASS, K.CKO_SECRET_KEY), (K.CKA_KEY_TYPE, K.CKK_SHA256_HMAC), (K.CKA_TOKEN, T), (K.CKA_PRIVATE, T),
+               (K.CKA_ID, b"o4"), (K.CKA_LABEL, b"private hmac"), (K.CKA_VALUE, b"h" * 32), (K.CKA_SENSITIVE, F),
+               (K.CKA_EXTRACTABLE, T), (K.CKA_SIGN, T), (K.CKA_VERIFY, T)],
+              [(K.CKA_CLASS, K.CKO_SECRET_KEY), (K.CKA_KEY_TYPE, K.CKK_DES3), (K.CKA_TOKEN, T), (K.CKA_PRIVATE, F),
+               (K.CKA_ID, b"o5"), (K.CKA_LABEL, b"public des3"), (K.CKA_VALUE, bytes([1, 2, 4, 7, 8, 11, 13, 14] * 3)),
+               (K.CKA_SENSITIVE, F), (K.CKA_EXTRACTABLE, T), (K.CKA_ENCRYPT, T)]):
         rv, g = p.create_object(s, t)
         assert rv == 0, rvname(rv)
     p.finalize()
@@ -102,6 +109,28 @@ def perform(p, scenario, arm, disarm):
     if scenario == "InitTokenReinit":
         arm()
         rv = p.init_token(sl, SO, b"crash-token-2")
+        disarm()
+        return rv
+    if scenario in ("ReadAll", "ReadAllRO"):
+        # calls that only read: whatever they do to the token directory, they must not write to it
+        rv, s = p.open_session(sl, scenario == "ReadAll")
+        assert p.login(s, K.CKU_USER, USER) == 0
+        arm()
+        rv, hs = p.find(s, [])
+        for g in hs:
+            for a in ATTRS:
+                p.get_attr(s, g, a)
+            p.object_size(s, g)
+        for tag, mech in ((b"o4", K.CKM_SHA256_HMAC), (b"o2", K.CKM_SHA256_HMAC)):
+            g = find_by_id(p, s, tag)
+            if p.op_init("Sign", s, Mech(mech), g) == 0:
+                p.io_full("Sign", s, b"some data")
+        g = find_by_id(p, s, b"o1")
+        if p.op_init("Encrypt", s, Mech(K.CKM_AES_ECB), g) == 0:
+            p.io_full("Encrypt", s, bytes(32))
+        p.token_info(sl)
+        p.session_info(s)
+        rv, hs2 = p.find(s, [(K.CKA_CLASS, K.CKO_SECRET_KEY)])
         disarm()
         return rv
     rv, s = p.open_session(sl, True)
@@ -396,8 +425,14 @@ def main():
         new = mask(sc, run_recover(lib, wd))
         ops, newfiles = normalise_ops(log, before) if os.path.exists(log) else ([], [])
         shutil.rmtree(wd, ignore_errors=True)
-        f.write(json.dumps(dict(e="Log", scenario=sc, rv=out.get("rv", "?"), ops=ops, newfiles=newfiles, old=old, new=new)) + "\n")
+        f.write(json.dumps(dict(e="Log", scenario=sc, rv=out.get("rv", "?"), ops=ops, newfiles=newfiles, old=old, new=new,
+                                ro=sc.startswith("ReadAll"))) + "\n")
         ks = list(range(1, len(ops) + 1))
+        if sc.startswith("ReadAll"):
+            # a reading call has no interesting crash point - unless it writes (which the protocol check refuses):
+            # death before every modifying operation, and at a few other points
+            mod = [i + 1 for i, o in enumerate(ops) if o[0] in ("ftruncate", "remove", "wrlock") or (o[0] == "fflush" and o[2] == "w")]
+            ks = sorted(set(mod[:40] + [1, len(ops) // 3, len(ops) // 2, len(ops)]) - {0})
         with cf.ThreadPoolExecutor(max_workers=jobs) as ex:
             results = list(ex.map(experiment, [(lib, base, workdir, sc, mode, k, shim) for k in ks]))
         for r in results:
